@@ -59,6 +59,11 @@ def to_sym(x, sort):
         return ObjV(type(x).__name__ if type(x).__name__ in ("MeshPatt",) else "MeshPatt", {"pattern": conc_seq(tuple(x.pattern), "Perm"), "shading": conc_set(x.shading)})
     if base == "Cell":
         return TupV([IntV(x[0]), IntV(x[1])])
+    if base == "CellSetSeq":
+        sets = [conc_set(list(R)) for R in x]
+        return SeqV(len(sets), lambda i, sets=sets: _pick(i, sets), "list")
+    if base == "opaque":
+        return ObjV("opaque", {"__id__": IntV(0)})
     if base == "Seq":
         return conc_seq(tuple(x), "tuple")
     if base == "none":
